@@ -403,7 +403,12 @@ pub fn result_json(run: &Run, scenario: &str) -> Value {
     let panics: Vec<Value> = crate::PANICS.lock().unwrap().iter().map(|(l, m)| json!({"at": l, "msg": m})).collect();
     let h = run.hosts.lock().unwrap();
     let relayed = h.log.iter().filter(|r| r.token.is_some()).count();
+    let debug: Vec<String> = match std::env::var("VERIF_DEBUG_TOK") {
+        Ok(t) => h.log.iter().filter(|r| r.token.as_deref() == Some(t.as_str())).map(|r| format!("HOST {} sig={:?} raw_head={:?} body_len={} chunked={} chunks={:?}", r.host, r.sig, String::from_utf8_lossy(&r.msg.head.raw), r.msg.body.len(), r.msg.chunked, r.msg.chunk_sizes)).collect(),
+        Err(_) => Vec::new(),
+    };
     json!({
+        "debug": debug,
         "scenario": scenario,
         "seed": run.seed,
         "verdict": if run.violations.is_empty() { "ok" } else { "violation" },
